@@ -109,6 +109,9 @@ func newEnv() *env {
 
 // tracer records, for the probes, the stack length seen at every step and the pc of a faulting step.
 type tracer struct {
+	lastStack []string // the stack (top first, at most 4 words) and its depth as the most recent step found it
+	lastDepth int
+	keepStack bool
 	stackLens []int
 	pcs       []uint64
 	faultPC   int64
@@ -125,6 +128,15 @@ func (t *tracer) CaptureState(e *vm.EVM, pc uint64, op vm.OpCode, gas, cost uint
 	if err != nil { // the deferred report of a failure that happened before the step was logged (stack validation, gas)
 		if t.faultPC < 0 {
 			t.faultPC, t.faultErr = int64(pc), err.Error()
+		}
+		return nil
+	}
+	if t.keepStack {
+		d := st.Data()
+		t.lastDepth = len(d)
+		t.lastStack = t.lastStack[:0]
+		for i := len(d) - 1; i >= 0 && i >= len(d)-4; i-- {
+			t.lastStack = append(t.lastStack, d[i].Text(16))
 		}
 		return nil
 	}
@@ -422,7 +434,13 @@ func genProgram(r *hx.Rng, operand func(*hx.Rng) *big.Int) []byte {
 			depth = 0
 		}
 	}
-	switch r.Intn(8) {
+	switch r.Intn(9) {
+	case 8: // PUSHn truncated by the end of the code (the missing bytes read as zeros)
+		nb := 1 + r.Intn(32)
+		a.op(byte(0x5f + nb))
+		for j := r.Intn(nb); j > 0; j-- {
+			a.op(byte(1 + r.Intn(255)))
+		}
 	case 0:
 		a.op(0x00)
 	case 1: // fall off the end
@@ -590,7 +608,7 @@ func main() {
 	}
 	nRand := 20000
 	if run.Thorough() {
-		nRand = 2000000
+		nRand = 1000000
 	}
 	rr := rng.Fork(1)
 	for i := 0; i < nRand; i++ {
@@ -764,7 +782,7 @@ func main() {
 	}
 	nJd := 3000
 	if run.Thorough() {
-		nJd = 100000
+		nJd = 60000
 	}
 	dests := func(r *hx.Rng, n int) []*big.Int {
 		ds := []*big.Int{big.NewInt(int64(n)), big.NewInt(int64(n) + 1), add(pow2(63), -1), pow2(63), pow2(64), add(two256, -1)}
@@ -881,7 +899,7 @@ func main() {
 	}
 	nG := 4000
 	if run.Thorough() {
-		nG = 200000
+		nG = 100000
 	}
 	for i := 0; i < nG; i++ {
 		doMemgas(memLens[rg.Intn(len(memLens))], randU64(rg))
@@ -1007,7 +1025,7 @@ func main() {
 	rp := rng.Fork(5)
 	nProg := 6000
 	if run.Thorough() {
-		nProg = 400000
+		nProg = 120000
 	}
 	for i := 0; i < nProg; i++ {
 		ep := epochs[0]
@@ -1026,14 +1044,16 @@ func main() {
 		line := fmt.Sprintf("prog %s %s %d %s %s", ep.name, ep.gt, gas, hx.Hex(code), hx.Hex(input))
 		run.Current(line)
 		out := hx.Safe(func() string {
-			ret, left, err := e.run(ep.cfg, 0, code, input, gas, nil)
+			tr := &tracer{keepStack: true}
+			ret, left, err := e.run(ep.cfg, 0, code, input, gas, tr)
+			digest := fmt.Sprintf("d%d:%s", tr.lastDepth, strings.Join(tr.lastStack, ","))
 			if err != nil {
 				if strings.Contains(err.Error(), "execution reverted") {
-					return fmt.Sprintf("revert %s %d", hx.Hex(ret), left)
+					return fmt.Sprintf("revert %s %d %s", hx.Hex(ret), left, digest)
 				}
 				return "fail " + failClass(err)
 			}
-			return fmt.Sprintf("ok %s %d", hx.Hex(ret), left)
+			return fmt.Sprintf("ok %s %d %s", hx.Hex(ret), left, digest)
 		})
 		run.Case(line, out)
 		f := strings.Fields(out)
